@@ -238,6 +238,53 @@ func runC12(c *bx.Ctx) {
 			}
 		}
 	}
+	// long lists: contiguous runs (burst loss) of 15..19 and 32..36 numbers, exact and with every single deviation —
+	// one element replaced by any value of a window around the run, one element duplicated at any position, two
+	// elements swapped, one element removed; ascending and descending; at four bases including the wrap
+	c.Space("lists.runs-with-one-deviation")
+	for _, base := range []uint16{0, 1000, 65520, 65500} {
+		for _, n := range []int{15, 16, 17, 18, 19, 32, 33, 34, 35, 36} {
+			for _, desc := range []bool{false, true} {
+				if !c.MineBlock(0) {
+					continue
+				}
+				if c.Expired() {
+					return
+				}
+				run := make([]uint16, n)
+				for i := range run {
+					if desc {
+						run[i] = base + uint16(n-1-i)
+					} else {
+						run[i] = base + uint16(i)
+					}
+				}
+				try := func(l []uint16) { c.Add(1); c12List(c, l) }
+				try(run)
+				for i := 0; i < n; i++ {
+					for d := -3; d <= n+20; d++ { // replace
+						l := append([]uint16{}, run...)
+						l[i] = base + uint16(d)
+						try(l)
+					}
+					for j := 0; j <= n; j++ { // duplicate element i at position j
+						l := append([]uint16{}, run[:j]...)
+						l = append(l, run[i])
+						l = append(l, run[j:]...)
+						try(l)
+					}
+					for j := i + 1; j < n; j++ { // swap
+						l := append([]uint16{}, run...)
+						l[i], l[j] = l[j], l[i]
+						try(l)
+					}
+					l := append([]uint16{}, run[:i]...) // remove
+					l = append(l, run[i+1:]...)
+					try(l)
+				}
+			}
+		}
+	}
 	win8 := []uint16{65533, 65534, 65535, 0, 1, 16, 17, 18}
 	c.Space("lists.window37")
 	allLists(c, win37, 4)
